@@ -343,3 +343,53 @@ pub fn record(runs: usize, path: &str) {
         }
     }
 }
+
+/// impl -> spec for the jet library (JetLib.tla): every Core jet whose source and target are flat (units, words
+/// and products of them) is run through the Bit Machine on patterned and random inputs; input and output bits
+/// are logged.  TLC judges the ones JetLib specifies.
+pub fn record_jets(per_jet: usize, path: &str) {
+    use simplicity::jet::{Core, CoreEnv, Jet};
+    use simplicity::node::JetConstructible;
+    use simplicity::types::Final;
+    fn flat(t: &Final) -> bool {
+        if t.is_unit() || t.as_word().is_some() { return true; }
+        match t.as_product() { Some((a, b)) => flat(a) && flat(b), None => false }
+    }
+    let mut rng = Rng::from_env(55);
+    let mut out = Out::file(path);
+    let env = CoreEnv::new();
+    for j in Core::ALL.iter() {
+        let (src, tgt) = (j.source_ty().to_final(), j.target_ty().to_final());
+        if !flat(&src) || !flat(&tgt) || src.bit_width() > 2048 { continue; }
+        let n = src.bit_width();
+        let mut inputs: Vec<Vec<bool>> = vec![vec![false; n], vec![true; n]];
+        if n > 0 {
+            let mut one = vec![false; n]; one[n - 1] = true; inputs.push(one);
+            // equal halves, halves differing in the last bit, carries rippling through
+            let h = n / 2;
+            if h > 0 && n % 2 == 0 {
+                let a: Vec<bool> = (0..h).map(|_| rng.bool()).collect();
+                let mut eq = a.clone(); eq.extend(a.iter()); inputs.push(eq);
+                let mut ne = a.clone(); let mut b = a.clone(); b[h - 1] = !b[h - 1]; ne.extend(b); inputs.push(ne);
+                let mut carry = vec![true; h]; carry.extend(std::iter::repeat(false).take(h - 1)); carry.push(true); inputs.push(carry);
+            }
+        }
+        for _ in 0..per_jet { inputs.push((0..n).map(|_| rng.bool()).collect()); }
+        for bits in inputs {
+            let res = guarded(|| types::Context::with_context(|ctx| {
+                let node = CN::jet(&ctx, j);
+                let rn = node.finalize_unpruned().expect("one-jet program");
+                let bytes = bytes_from_bits(&bits);
+                let input = Value::from_compact_bits(&mut simplicity::BitIter::from(&bytes[..]), &src).expect("input");
+                let mut mac = BitMachine::for_program(&rn).expect("machine");
+                mac.input(&input).expect("input");
+                match mac.exec(&rn, &env) {
+                    Ok(v) => bits_j(v.iter_padded()),
+                    Err(_) => json!("jetfailed"),
+                }
+            })).unwrap_or_else(|p| json!(format!("panic: {}", p)));
+            out.emit(&json!({"ev": "jet", "name": j.to_string(), "in": bits_j(bits.iter().copied()), "out": res}));
+        }
+    }
+    out.flush();
+}
